@@ -16,7 +16,7 @@ From Coq Require Import List ZArith Bool Lia.
 From BLB Require Import Gen.Consts Cluster.Model Cluster.Proofs Cluster.Frame Cluster.Inv Cluster.Window
      Cluster.Attempts Cluster.Sched Cluster.Order Cluster.Contain Cluster.Visible Cluster.Lower.
 From BLB Require C05.GC C05.Model.
-From BLB Require Import C05.Strict C05.Lift.
+From BLB Require Import C05.Strict C05.Lift C05.NonInt.
 Import ListNotations.
 Open Scope Z_scope.
 
@@ -79,32 +79,12 @@ Section Eqv.
 End Eqv.
 
 (* ------------------------------------------------------------------ list lemmas *)
-Lemma filt_ext : forall A (f g : A -> bool) l, (forall a, f a = g a) -> filter f l = filter g l.
-Proof. intros A f g l H. induction l as [|a l IH]; cbn; auto. rewrite H, IH. reflexivity. Qed.
 
-Lemma filt_filt : forall A (f g : A -> bool) l, filter f (filter g l) = filter (fun a => g a && f a) l.
-Proof. intros A f g l. induction l as [|a l IH]; cbn; auto. destruct (g a); cbn; [destruct (f a)|]; rewrite IH; reflexivity. Qed.
 
 Lemma filt_true : forall A (f : A -> bool) l, (forall a, f a = true) -> filter f l = l.
 Proof. intros A f l H. induction l as [|a l IH]; cbn; auto. rewrite H, IH. reflexivity. Qed.
 
-Lemma zget_filter : forall A (q : Z -> bool) (l : list (Z * A)) k,
-  zget (filter (fun e => q (fst e)) l) k = if q k then zget l k else None.
-Proof.
-  intros A q l k. induction l as [|[k' v] l IH]; cbn; [destruct (q k); reflexivity|].
-  destruct (k =? k') eqn:E.
-  - apply Z.eqb_eq in E. subst k'. destruct (q k) eqn:Q; cbn; [rewrite Z.eqb_refl; reflexivity|]. rewrite IH. reflexivity.
-  - destruct (q k'); cbn; [rewrite E|]; exact IH.
-Qed.
 
-Lemma tget_filter : forall A (q : Z -> bool) (l : list (tkt * A)) t,
-  tget (filter (fun e => q (fst (fst e))) l) t = if q (fst t) then tget l t else None.
-Proof.
-  intros A q l t. induction l as [|[k' v] l IH]; cbn; [destruct (q (fst t)); reflexivity|].
-  destruct (tk_eqb t k') eqn:E.
-  - apply tk_eqb_eq in E. subst k'. destruct (q (fst t)) eqn:Q; cbn; [rewrite tk_eqb_refl; reflexivity|]. rewrite IH. reflexivity.
-  - destruct (q (fst k')); cbn; [rewrite E|]; exact IH.
-Qed.
 
 Lemma zdel_filter : forall A (l : list (Z * A)) b, zdel l b = filter (fun e => negb (b =? fst e)) l.
 Proof. intros A l b. induction l as [|[k v] l IH]; cbn; [reflexivity|]. destruct (b =? k); cbn; [|f_equal]; exact IH. Qed.
@@ -141,9 +121,6 @@ Proof. intros []. reflexivity. Qed.
 Definition keys (x : X5.xstate) : list Z := map fst (X5.x_del x).
 Definition hidden (x : X5.xstate) (b : Z) : bool := zmem b (keys x) || zmem b (X5.x_dead x).
 
-Definition projd (hid : Z -> bool) (st : state) : state :=
-  set_dtr (set_blobs st (filter (fun e => negb (hid (fst e))) (s_blobs st)))
-          (filter (fun e => negb (hid (fst (fst e)))) (s_dtr st)).
 
 Lemma projd_none : forall hid st, (forall b, hid b = false) -> projd hid st = st.
 Proof.
@@ -153,11 +130,7 @@ Qed.
 Lemma projd_ext : forall h1 h2 st, (forall b, h1 b = h2 b) -> projd h1 st = projd h2 st.
 Proof. intros h1 h2 st H. unfold projd. f_equal; [f_equal|]; apply filt_ext; intros a; rewrite H; reflexivity. Qed.
 
-Lemma zget_projd : forall hid st b, zget (s_blobs (projd hid st)) b = if hid b then None else zget (s_blobs st) b.
-Proof. intros. unfold projd. cbn [s_blobs set_dtr set_blobs]. rewrite (zget_filter _ (fun k => negb (hid k))). destruct (hid b); reflexivity. Qed.
 
-Lemma tget_projd : forall hid st t, tget (s_dtr (projd hid st)) t = if hid (fst t) then None else tget (s_dtr st) t.
-Proof. intros. unfold projd. cbn [s_dtr set_dtr set_blobs]. rewrite (tget_filter _ (fun k => negb (hid k))). destruct (hid (fst t)); reflexivity. Qed.
 
 Record AG (x : X5.xstate) (vst : state) : Prop := {
   ag_cl : X5.x_cl x = projd (hidden x) vst;
@@ -203,11 +176,15 @@ Definition SB6 (x : X5.xstate) (vst : state) : Prop :=
   forall i t, In i (X5.x_soup x) -> In t (X5.i_gone i) -> GC.is_rs t = false ->
     zget (s_blobs vst) (fst t) = None \/ zmem (fst t) (X5.x_dead x) = true.
 
-Definition xinv6 (x : X5.xstate) : Prop := exists vst, G vst /\ low vst /\ AG x vst /\ SA6 x vst /\ SB6 x vst.
+Definition xinv6 (x : X5.xstate) : Prop := exists vst, G vst /\ low vst /\ AG x vst /\ SA6 x vst /\ SB6 x vst /\ T1 (hidden x) vst.
+
+Lemma T1_same : forall x x' vst vst', X5.x_del x' = X5.x_del x -> X5.x_dead x' = X5.x_dead x -> s_tasks vst' = s_tasks vst ->
+  T1 (hidden x) vst -> T1 (hidden x') vst'.
+Proof. intros x x' vst vst' E1 E2 E3 T t I. rewrite E3 in I. unfold hidden, keys. rewrite E1, E2. exact (T t I). Qed.
 
 Lemma xinv6_init : xinv6 X5.init_x.
 Proof.
-  exists init_state. split; [exact G_init|]. split; [exact low_init|]. split; [|split; intros i t; cbn; intros; contradiction].
+  exists init_state. split; [exact G_init|]. split; [exact low_init|]. split; [|split; [|split]]; try (intros i t; cbn; intros; contradiction).
   constructor; cbn; intros; try discriminate; reflexivity.
 Qed.
 
@@ -219,9 +196,10 @@ Definition ok6_ev (x : X5.xstate) (ev : list Z) : bool :=
   match ev with
   | [] => false
   | c :: a =>
-      if c <? 40 then nohid x && ok5_ev x ev
+      if c <? 40 then ev_ok (hidden x) ev && ok5_ev x ev
       else if (c =? 40) || (c =? 41) then ok5_ev x ev
-      else if (c =? 42) || (c =? 43) || (c =? 45) then match a with [_] => true | _ => false end
+      else if c =? 42 then match a with [b] => forallb (fun t => negb (t_blob t =? b)) (s_tasks (X5.x_cl x)) | _ => false end
+      else if (c =? 43) || (c =? 45) then match a with [_] => true | _ => false end
       else if c =? 44 then true
       else false
   end.
@@ -232,40 +210,43 @@ Fixpoint ok6_run (x : X5.xstate) (evs : list (list Z)) : bool :=
 Lemma nohid_hidden : forall x, nohid x = true -> forall b, hidden x b = false.
 Proof. intros x H b. unfold nohid in H. unfold hidden, keys. destruct (X5.x_del x); [|discriminate]. destruct (X5.x_dead x); [reflexivity|discriminate]. Qed.
 
-(* ------------------------------------------------------------------ Cluster events (no blob hidden) *)
+(* ------------------------------------------------------------------ Cluster events (naming no hidden blob) *)
+Lemma hidden_setcl : forall x cl b, hidden (X5.set_cl x cl) b = hidden x b.
+Proof. intros. reflexivity. Qed.
+
 Lemma xinv6_cluster : forall x ev, hd 0 ev <? 40 = true -> ok6_ev x ev = true -> xinv6 x -> xinv6 (fst (X5.step x ev)).
 Proof.
-  intros x ev C OK (vst & GS & LS & A & SA & SB).
+  intros x ev C OK (vst & GS & LS & A & SA & SB & TT).
   destruct ev as [|c a]; [discriminate OK|]. cbn [hd] in C. unfold ok6_ev in OK. rewrite C in OK.
-  apply andb_true_iff in OK as [NH OK]. unfold ok5_ev in OK. rewrite C in OK. apply andb_true_iff in OK as [OK FB].
-  pose proof (nohid_hidden x NH) as HN.
-  assert (EQ : X5.x_cl x = vst) by (rewrite (ag_cl _ _ A); now apply projd_none).
-  unfold X5.step. rewrite C. destruct (step (X5.x_cl x) (c :: a)) as [cl o] eqn:S. cbn [fst].
-  assert (CL : cl = fst (step vst (c :: a))) by (rewrite <- EQ, S; reflexivity).
-  rewrite EQ in OK.
-  exists cl. split; [rewrite CL; eapply G_step; eauto; now apply low_lwp|]. split; [rewrite CL; eapply low_step; eauto|].
-  split; [|split].
-  - assert (DE : X5.x_del x = []) by (unfold nohid in NH; destruct (X5.x_del x); [reflexivity|discriminate NH]).
-    destruct A as [A1 A2 A3 A4 A5]. constructor; unfold keys in *; cbn [X5.x_cl X5.set_cl X5.upd X5.x_del X5.x_deltr X5.x_dead] in *.
-    + symmetry. apply projd_none. intros b. exact (HN b).
-    + intros b repl nt tm H. rewrite DE in H. discriminate H.
-    + intros t H. rewrite DE in H. discriminate H.
+  apply andb_true_iff in OK as [EO OK]. unfold ok5_ev in OK. rewrite C in OK. apply andb_true_iff in OK as [OK FB].
+  unfold X5.step. rewrite C.
+  destruct (step_projd (hidden x) vst (c :: a) TT EO) as [(E1 & HK & T') EOUT].
+  rewrite (ag_cl _ _ A) in *. rewrite (ok_ev_projd 4 (hidden x) vst (c :: a) EO) in OK.
+  destruct (step (projd (hidden x) vst) (c :: a)) as [cl o] eqn:S. cbn [fst snd] in *.
+  set (vst' := fst (step vst (c :: a))) in *.
+  exists vst'. split; [eapply G_step; eauto; now apply low_lwp|]. split; [eapply low_step; eauto|].
+  destruct HK as [HK1 HK2]. split; [|split; [|split]].
+  - destruct A as [A1 A2 A3 A4 A5]. constructor; unfold keys in *; cbn [X5.x_cl X5.set_cl X5.upd X5.x_del X5.x_deltr X5.x_dead] in *.
+    + exact E1.
+    + intros b repl nt tm H. rewrite HK1; [exact (A2 _ _ _ _ H)|]. unfold hidden, keys. rewrite zmem_keys, H. reflexivity.
+    + intros t H. rewrite HK2; [exact (A3 t H)|]. unfold hidden, keys. rewrite H. reflexivity.
     + exact A4.
-    + intros b H. rewrite DE in H. discriminate H.
+    + exact A5.
   - intros i t v Hi Ho. cbn in Hi. destruct (SA i t v Hi Ho) as (dv & hs & E & L & K).
     destruct (c =? 2) eqn:C2.
-    + apply Z.eqb_eq in C2. subst c. destruct (newblob_step vst a) as [DT _]. rewrite <- CL in DT. exists dv, hs. rewrite DT. auto.
-    + assert (SV : sadv vst cl) by (rewrite CL; apply sadv_step; cbn; intros X; subst c; discriminate C2).
+    + apply Z.eqb_eq in C2. subst c. destruct (newblob_step vst a) as [DT _]. exists dv, hs. unfold vst'. rewrite DT. auto.
+    + assert (SV : sadv vst vst') by (apply sadv_step; cbn; intros X; subst c; discriminate C2).
       destruct (SV (G_dur _ GS)) as [_ [SD _]]. destruct (SD _ _ _ E) as (dv' & hs' & E' & L' & Q). exists dv', hs'. split; [exact E'|].
       split; [lia|]. intros In'. destruct (Z.eq_dec dv' dv) as [X|X]; [rewrite (Q X) in In'; specialize (K In'); lia | lia].
   - intros i t Hi Hg R. cbn in Hi. cbn [X5.x_dead X5.set_cl X5.upd]. destruct (SB i t Hi Hg R) as [B|B]; [|right; exact B]. left.
     destruct (c =? 2) eqn:C2.
-    + apply Z.eqb_eq in C2. subst c. destruct (newblob_step vst a) as [_ NB]. rewrite <- CL in NB.
+    + apply Z.eqb_eq in C2. subst c. destruct (newblob_step vst a) as [_ NB].
       destruct (NB _ B) as [Y|Y]; [exact Y|]. exfalso.
       unfold fresh_blob in FB. rewrite forallb_forall in FB. specialize (FB _ Hi). rewrite forallb_forall in FB. specialize (FB _ Hg).
       apply negb_true_iff in FB. apply Z.eqb_neq in FB. congruence.
-    + assert (SV : sadv vst cl) by (rewrite CL; apply sadv_step; cbn; intros X; subst c; discriminate C2).
+    + assert (SV : sadv vst vst') by (apply sadv_step; cbn; intros X; subst c; discriminate C2).
       destruct (SV (G_dur _ GS)) as [_ [_ BS]]. exact (BS _ B).
+  - exact T'.
 Qed.
 
 (* ------------------------------------------------------------------ a tract report (event 40) *)
@@ -284,7 +265,7 @@ Qed.
 
 Lemma xinv6_report : forall x ts ids, xinv6 x -> xinv6 (fst (X5.step_report x ts ids)).
 Proof.
-  intros x ts ids (vst & GS & LS & A & SA & SB).
+  intros x ts ids (vst & GS & LS & A & SA & SB & TT).
   set (vst1 := fst (step vst [11; ts])).
   assert (G1 : G vst1) by (eapply G_step; [apply (ok_ev_heartbeat vst ts) | now apply low_lwp | exact GS]).
   assert (L1 : low vst1) by (eapply low_step; [apply (ok_ev_heartbeat vst ts) | exact GS | exact LS]).
@@ -299,7 +280,7 @@ Proof.
   assert (NEW : xinv6 (X5.upd x1 cl1 (X5.x_soup x1 ++ [{| X5.i_gen := s_gen cl1; X5.i_ts := ts; X5.i_old := old; X5.i_gone := gone |}])
                        (X5.x_del x1) (X5.x_deltr x1) (X5.x_chunks x1) (X5.x_pend x1) (X5.x_rst x1) (X5.x_scan x1) (X5.x_nblobs x1))).
   { unfold GC.check_for_garbage, GC.check_for_garbage_f in CG. injection CG as EO EG.
-    exists vst1. split; [exact G1|]. split; [exact L1|]. split; [|split].
+    exists vst1. split; [exact G1|]. split; [exact L1|]. split; [|split; [|split; [|apply (T1_same x _ vst vst1); auto]]].
     - apply (AG_same x1 _ vst1 vst1); [reflexivity | reflexivity | reflexivity | reflexivity | reflexivity | exact (ag_cl _ _ A1) | exact A1].
     - intros i t v Hi Ho. cbn [X5.x_soup X5.upd] in Hi. apply in_app_iff in Hi as [Hi|[Hi|[]]]; [exact (SA1 i t v Hi Ho)|].
       subst i. cbn [X5.i_old X5.i_ts] in *. rewrite <- EO in Ho. apply GC.olds_f_in in Ho as [_ Hc].
@@ -312,7 +293,7 @@ Proof.
       apply chk_gone in Hc; [|exact R]. change (vis_blob x1 (fst t) = None) in Hc. rewrite (vis_blob_v _ _ _ A1) in Hc.
       cbn [X5.x_dead X5.upd]. destruct (zmem (fst t) (X5.x_dead x1)); [right; reflexivity|]. left.
       destruct (zget (s_blobs vst1) (fst t)) as [[r0 nt]|]; [discriminate|reflexivity]. }
-  destruct old; [destruct gone|]; cbn [fst]; try exact NEW. exists vst1. auto.
+  destruct old; [destruct gone|]; cbn [fst]; try exact NEW. exists vst1. split; [exact G1|]. split; [exact L1|]. split; [exact A1|]. split; [exact SA1|]. split; [exact SB1|]. apply (T1_same x _ vst vst1); auto.
 Qed.
 
 (* ------------------------------------------------------------------ a delivery (event 41) *)
@@ -320,7 +301,7 @@ Lemma xinv6_deliver : forall x n f, deliver_ok x n = true -> xinv6 x -> xinv6 (f
 Proof.
   intros x n f OK I. unfold X5.step_deliver.
   destruct (nth_error (X5.x_soup x) (Z.to_nat n)) as [i|] eqn:N; [|exact I]. cbn [fst].
-  destruct I as (vst & GS & LS & A & SA & SB). pose proof (nth_error_In _ _ N) as Hi.
+  destruct I as (vst & GS & LS & A & SA & SB & TT). pose proof (nth_error_In _ _ N) as Hi.
   unfold deliver_ok in OK. rewrite N in OK. rewrite forallb_forall in OK.
   assert (RE : s_reps (X5.x_cl x) = s_reps vst) by (rewrite (ag_cl _ _ A); reflexivity).
   assert (OE : s_ops (X5.x_cl x) = s_ops vst) by (rewrite (ag_cl _ _ A); reflexivity).
@@ -334,7 +315,7 @@ Proof.
     - right. intros o [Io Ko] X. specialize (OK _ Hg). apply negb_true_iff in OK. unfold write_on in OK. rewrite OE in OK.
       assert (existsb (fun o0 => (o_kind o0 =? 3) && (o_blob o0 =? fst tk)) (s_ops vst) = true); [|congruence].
       apply existsb_exists. exists o. split; auto. rewrite Ko, X, !Z.eqb_refl. reflexivity. }
-  exists (set_reps vst reps'). split; [apply rm_G; auto|]. split; [apply rm_low; auto|]. split; [|split; [exact SA | exact SB]].
+  exists (set_reps vst reps'). split; [apply rm_G; auto|]. split; [apply rm_low; auto|]. split; [|split; [exact SA | split; [exact SB | exact TT]]].
   apply (AG_same x _ vst _); [reflexivity | reflexivity | reflexivity | reflexivity | reflexivity | | exact A].
   cbn [X5.x_cl X5.set_cl X5.upd]. rewrite (ag_cl _ _ A). reflexivity.
 Qed.
@@ -356,15 +337,22 @@ Lemma hidden_false : forall x b, hidden x b = false -> zmem b (keys x) = false /
 Proof. intros x b H. unfold hidden in H. apply orb_false_iff in H. exact H. Qed.
 
 (* ------------------------------------------------------------------ DeleteBlob (event 42) *)
-Lemma xinv6_delete : forall x b, xinv6 x -> xinv6 (fst (X5.step_delete x b)).
+Lemma xinv6_delete : forall x b, forallb (fun t => negb (t_blob t =? b)) (s_tasks (X5.x_cl x)) = true -> xinv6 x -> xinv6 (fst (X5.step_delete x b)).
 Proof.
-  intros x b (vst & GS & LS & A & SA & SB). unfold X5.step_delete.
+  intros x b NT (vst & GS & LS & A & SA & SB & TT). unfold X5.step_delete.
   destruct (zget (s_blobs (X5.x_cl x)) b) as [[repl nt]|] eqn:ZB; cbn [fst].
-  2:{ exists vst. split; [exact GS|]. split; [exact LS|]. split; [|split; [exact SA | exact SB]].
+  2:{ exists vst. split; [exact GS|]. split; [exact LS|]. split; [|split; [exact SA | split; [exact SB | apply (T1_same x _ vst vst); auto]]].
       apply (AG_same x _ vst vst); try reflexivity; [exact (ag_cl _ _ A) | exact A]. }
   pose proof ZB as Z'. rewrite (ag_cl _ _ A), zget_projd in Z'. destruct (hidden x b) eqn:HB; [discriminate|].
   destruct (hidden_false _ _ HB) as [KB DB].
-  exists vst. split; [exact GS|]. split; [exact LS|]. split; [|split; [exact SA | exact SB]].
+  assert (TD : T1 (hidden (X5.upd x (set_dtr (set_blobs (X5.x_cl x) (zdel (s_blobs (X5.x_cl x)) b)) (X5.drop_blob_tracts (s_dtr (X5.x_cl x)) b))
+                  (X5.x_soup x) ((b, (repl, nt, X5.x_clock x)) :: X5.x_del x) (X5.blob_tracts (s_dtr (X5.x_cl x)) b ++ X5.x_deltr x)
+                  (X5.x_chunks x) (X5.x_pend x) (X5.x_rst x) (X5.x_scan x) (X5.x_nblobs x))) vst).
+  { intros t It. unfold hidden, keys. cbn [X5.x_del X5.x_dead X5.upd map fst]. change (zmem (t_blob t) (b :: map fst (X5.x_del x))) with ((t_blob t =? b) || zmem (t_blob t) (keys x)).
+    rewrite <- orb_assoc. fold (hidden x (t_blob t)). rewrite (TT t It), orb_false_r.
+    rewrite (ag_cl _ _ A) in NT. change (s_tasks (projd (hidden x) vst)) with (s_tasks vst) in NT. rewrite forallb_forall in NT.
+    apply negb_true_iff. exact (NT t It). }
+  exists vst. split; [exact GS|]. split; [exact LS|]. split; [|split; [exact SA | split; [exact SB | exact TD]]].
   destruct A as [A1 A2 A3 A4 A5].
   assert (HK : forall k, zmem k (b :: keys x) = (k =? b) || zmem k (keys x)) by (intros; reflexivity).
   constructor; unfold keys in *; cbn [X5.x_cl X5.upd X5.x_del X5.x_deltr X5.x_dead map fst].
@@ -395,9 +383,9 @@ Qed.
 (* ------------------------------------------------------------------ UndeleteBlob (event 43) *)
 Lemma xinv6_undelete : forall x b, xinv6 x -> xinv6 (fst (X5.step_undelete x b)).
 Proof.
-  intros x b (vst & GS & LS & A & SA & SB). unfold X5.step_undelete.
+  intros x b (vst & GS & LS & A & SA & SB & TT). unfold X5.step_undelete.
   assert (SAME : xinv6 (X5.set_cl x (X5.x_cl x))).
-  { exists vst. split; [exact GS|]. split; [exact LS|]. split; [|split; [exact SA | exact SB]].
+  { exists vst. split; [exact GS|]. split; [exact LS|]. split; [|split; [exact SA | split; [exact SB | apply (T1_same x _ vst vst); auto]]].
     apply (AG_same x _ vst vst); try reflexivity; [exact (ag_cl _ _ A) | exact A]. }
   rewrite gaget_eq. destruct (zget (X5.x_del x) b) as [[[repl nt] tm]|] eqn:ZD; cbn [fst].
   2:{ destruct (zget (s_blobs (X5.x_cl x)) b); exact SAME. }
@@ -417,7 +405,7 @@ Proof.
   set (vst' := set_dtr (set_blobs vst Bv) Dv).
   assert (HK : forall k, zmem k (map fst (GC.adel (X5.x_del x) b)) = if k =? b then false else zmem k (keys x)).
   { intros k. unfold keys. rewrite gadel_eq, !zmem_keys, zget_zdel. destruct (k =? b); reflexivity. }
-  exists vst'. split; [apply eqv_G; auto|]. split; [apply eqv_low; auto|]. split; [|split].
+  exists vst'. split; [apply eqv_G; auto|]. split; [apply eqv_low; auto|]. split; [|split; [|split]].
   - constructor; unfold keys in *; cbn [X5.x_cl X5.upd X5.x_del X5.x_deltr X5.x_dead].
     + rewrite (projd_ext _ (fun k => if k =? b then false else hidden x k) vst').
       2:{ intros k. unfold hidden, keys. cbn [X5.x_del X5.x_dead X5.upd]. rewrite HK. destruct (k =? b) eqn:E; [|reflexivity].
@@ -437,20 +425,22 @@ Proof.
     + intros k H. rewrite HK in H. destruct (k =? b); [discriminate | exact (A5 k H)].
   - intros i t v Hi Ho. cbn [X5.x_soup X5.upd] in Hi. cbn [s_dtr vst' set_dtr set_blobs]. rewrite ED. exact (SA i t v Hi Ho).
   - intros i t Hi Hg R. cbn [X5.x_soup X5.upd] in Hi. cbn [s_blobs vst' set_dtr set_blobs X5.x_dead X5.upd]. rewrite EB. exact (SB i t Hi Hg R).
+  - intros t It. cbn [s_tasks vst' set_dtr set_blobs] in It. unfold hidden, keys. cbn [X5.x_del X5.x_dead X5.upd]. rewrite HK.
+    pose proof (TT t It) as Ht. unfold hidden, keys in Ht. destruct (t_blob t =? b); [cbn [orb]; apply orb_false_iff in Ht as [_ Ht]; exact Ht | exact Ht].
 Qed.
 
 (* ------------------------------------------------------------------ metadata GC: scan (44) and FinishDeleteBefore applied (45) *)
 Lemma xinv6_scan : forall x, xinv6 x -> xinv6 (fst (X5.step_scan x)).
 Proof.
-  intros x (vst & GS & LS & A & SA & SB). unfold X5.step_scan. cbn [fst].
-  exists vst. split; [exact GS|]. split; [exact LS|]. split; [|split; [exact SA | exact SB]].
+  intros x (vst & GS & LS & A & SA & SB & TT). unfold X5.step_scan. cbn [fst].
+  exists vst. split; [exact GS|]. split; [exact LS|]. split; [|split; [exact SA | split; [exact SB | apply (T1_same x _ vst vst); auto]]].
   apply (AG_same x _ vst vst); try reflexivity; [exact (ag_cl _ _ A) | exact A].
 Qed.
 
 Lemma xinv6_finish : forall x n, xinv6 x -> xinv6 (fst (X5.step_finish x n)).
 Proof.
   intros x n I. unfold X5.step_finish. cbn [fst]. destruct (X5.x_scan x) as [[cutoff sel]|]; [|exact I].
-  destruct I as (vst & GS & LS & A & SA & SB).
+  destruct I as (vst & GS & LS & A & SA & SB & TT).
   set (dead := filter (fun b => match GC.aget (X5.x_del x) b with Some (_, _, tm) => tm <? cutoff | None => false end) sel).
   assert (DK : forall k, zmem k dead = true -> zmem k (keys x) = true).
   { intros k H. apply zmem_in in H. unfold dead in H. apply filter_In in H as [_ H]. rewrite gaget_eq in H. unfold keys. rewrite zmem_keys.
@@ -460,7 +450,7 @@ Proof.
                          negb (zmem k dead) && zmem k (keys x)).
   { intros k. unfold keys. rewrite !zmem_keys, (zget_filter _ (fun j => negb (GC.zmem j dead))).
     change (GC.zmem k dead) with (zmem k dead). destruct (zmem k dead); reflexivity. }
-  exists vst. split; [exact GS|]. split; [exact LS|]. split; [|split].
+  exists vst. split; [exact GS|]. split; [exact LS|]. split; [|split; [|split]].
   - constructor; unfold keys in *; cbn [X5.x_cl X5.upd X5.add_dead X5.x_del X5.x_deltr X5.x_dead].
     + rewrite A1. apply projd_ext. intros k. unfold hidden, keys. cbn [X5.x_del X5.x_dead X5.upd X5.add_dead]. rewrite HK, zmem_app.
       destruct (zmem k dead) eqn:E; cbn; [rewrite (DK k E); reflexivity | reflexivity].
@@ -473,11 +463,14 @@ Proof.
   - exact SA.
   - intros i t Hi Hg R. cbn [X5.x_soup X5.upd X5.add_dead] in Hi. cbn [X5.x_dead X5.upd X5.add_dead]. destruct (SB i t Hi Hg R) as [B|B]; [left; exact B|].
     right. rewrite zmem_app, B. apply orb_true_r.
+  - intros t It. pose proof (TT t It) as Ht. unfold hidden, keys in *. cbn [X5.x_del X5.x_dead X5.upd X5.add_dead]. rewrite HK, zmem_app.
+    apply orb_false_iff in Ht as [H1 H2]. rewrite H1, H2, andb_false_r. cbn [orb].
+    destruct (zmem (t_blob t) dead) eqn:E; [rewrite (DK _ E) in H1; discriminate | reflexivity].
 Qed.
 
 Lemma xinv6_setcl_same : forall x, xinv6 x -> xinv6 (X5.set_cl x (X5.x_cl x)).
 Proof.
-  intros x (vst & GS & LS & A & SA & SB). exists vst. split; [exact GS|]. split; [exact LS|]. split; [|split; [exact SA | exact SB]].
+  intros x (vst & GS & LS & A & SA & SB & TT). exists vst. split; [exact GS|]. split; [exact LS|]. split; [|split; [exact SA | split; [exact SB | apply (T1_same x _ vst vst); auto]]].
   apply (AG_same x _ vst vst); try reflexivity; [exact (ag_cl _ _ A) | exact A].
 Qed.
 
@@ -494,6 +487,7 @@ Proof.
     destruct (deliver_to_cases x n f rv) as [E|[E|E]]; rewrite E; [apply xinv6_deliver; auto | apply xinv6_setcl_same; auto | exact I]. }
   cbn [orb] in OK.
   destruct (c =? 42). { destruct a as [|b [|z r]]; try discriminate OK. apply xinv6_delete; auto. }
+  cbn [orb] in OK.
   destruct (c =? 43). { destruct a as [|b [|z r]]; try discriminate OK. apply xinv6_undelete; auto. }
   destruct (c =? 44). { apply xinv6_scan; auto. }
   destruct (c =? 45). { destruct a as [|b [|z r]]; try discriminate OK. apply xinv6_finish; auto. }
@@ -518,12 +512,20 @@ Proof.
   discriminate OK.
 Qed.
 
+Lemma ev_ok_none : forall h ev, (forall b, h b = false) -> ev_ok h ev = true.
+Proof.
+  intros h ev H. unfold ev_ok. destruct ev as [|c a]; [reflexivity|].
+  destruct (c =? 2); [rewrite H; reflexivity|]. destruct ((c =? 5) || (c =? 6)); [rewrite H; reflexivity|].
+  destruct (c =? 7). { destruct a as [|m r]; [reflexivity|]. destruct (parse_rpc r) as [[rp r1]|]; [rewrite H|]; reflexivity. }
+  destruct (c =? 12); [rewrite H; reflexivity | reflexivity].
+Qed.
+
 Lemma ok5_ok6_run : forall evs x, nohid x = true -> ok5_run x evs = true -> ok6_run x evs = true.
 Proof.
   induction evs as [|ev r IH]; intros x NH OK; cbn; auto. cbn in OK. apply andb_true_iff in OK as [O1 O2].
   apply andb_true_iff. split; [|apply IH; auto; eapply ok5_nohid; eauto].
   destruct ev as [|c a]; [discriminate O1|]. unfold ok6_ev. pose proof O1 as O1'. unfold ok5_ev in O1'.
-  destruct (c <? 40); [rewrite NH; exact O1|]. destruct (c =? 40); [exact O1|]. destruct (c =? 41); [exact O1|discriminate O1'].
+  destruct (c <? 40); [rewrite (ev_ok_none _ (c :: a) (nohid_hidden x NH)); exact O1|]. destruct (c =? 40); [exact O1|]. destruct (c =? 41); [exact O1|discriminate O1'].
 Qed.
 
 (* ------------------------------------------------------------------ the theorems over runs with delete / undelete / metadata GC *)
@@ -533,7 +535,7 @@ Lemma safe6 : forall x i f t, xinv6 x -> In i (X5.x_soup x) -> In t (removed x i
   | Some nt => snd t < nt /\ forall dv hs, vis_tract x t = Some (dv, hs) -> ~ In (X5.i_ts i) hs
   end.
 Proof.
-  intros x i f t (vst & GS & LS & A & SA & SB) Hi Hr R.
+  intros x i f t (vst & GS & LS & A & SA & SB & TT) Hi Hr R.
   assert (RE : s_reps (X5.x_cl x) = s_reps vst) by (rewrite (ag_cl _ _ A); reflexivity).
   rewrite (vis_blob_v _ _ _ A). apply removed_spec in Hr as [(v & r & Ho & Rg & Le)|Hg].
   - destruct (zmem (fst t) (X5.x_dead x)) eqn:Dd; [exact I|].
@@ -562,7 +564,7 @@ Theorem keeps_uncommitted_repair_cluster6 : forall evs,
   ~ In t (removed x i f).
 Proof.
   intros evs OK x i f t dv hs r Hi R E Rg Lt Hr.
-  destruct (xinv6_run evs _ OK xinv6_init) as (vst & GS & LS & A & SA & SB). fold x in A, SA, SB.
+  destruct (xinv6_run evs _ OK xinv6_init) as (vst & GS & LS & A & SA & SB & TT). fold x in A, SA, SB.
   rewrite (vis_tract_v _ _ _ A) in E. destruct (zmem (fst t) (X5.x_dead x)) eqn:Dd; [discriminate|].
   apply removed_spec in Hr as [(v & r' & Ho & Rg' & Le)|Hg].
   - rewrite Rg in Rg'. inversion Rg'; subst r'. destruct (SA i t v Hi Ho) as (dv' & hs' & E' & L & _). rewrite E in E'. inversion E'; subst. lia.
@@ -601,9 +603,17 @@ Section Intact.
 
   Lemma keep_step : forall x ev, xinv6 x -> ok6_ev x ev = true -> ev <> [43; b] -> keep x -> keep (fst (X5.step x ev)).
   Proof.
-    intros x ev I OK NE K. pose proof (keep_nohid x K) as NH.
+    intros x ev I OK NE K.
     destruct ev as [|c a]; [discriminate OK|]. unfold ok6_ev in OK. unfold X5.step.
-    destruct (c <? 40) eqn:C. { rewrite NH in OK. discriminate OK. }
+    destruct (c <? 40) eqn:C.
+    { apply andb_true_iff in OK as [EO O5]. destruct (step (X5.x_cl x) (c :: a)) as [cl o] eqn:S. cbn [fst].
+      destruct K as [(K1 & K2 & K3)|D]; [left|right; exact D]. split; [exact K1|]. split; [exact K2|].
+      intros t dv hs s Ft Dt Ins. rewrite <- (K3 t dv hs s Ft Dt Ins). cbn [X5.x_cl X5.set_cl X5.upd].
+      pose proof (step_frame_holds (X5.x_cl x) (c :: a)) as FR. unfold step_frame in FR. rewrite S in FR. cbn [fst] in FR.
+      destruct FR as [E|(mode & rest & rp & r1 & e & Eev & P & _ & _ & SE & _)]; [rewrite E; reflexivity|].
+      apply SE. intros X. unfold rpc_key_of, tkey in X. inversion X; subst s t. cbn [fst] in Ft.
+      inversion Eev; subst c a. cbn in EO. rewrite P in EO. apply negb_true_iff in EO.
+      destruct K1 as [tm Zd]. unfold hidden, keys in EO. rewrite Ft, zmem_keys, Zd in EO. discriminate EO. }
     destruct (c =? 40) eqn:C40.
     { destruct a as [|a0 [|ts [|n r]]]; try (cbn [orb] in OK; unfold ok5_ev in OK; rewrite C, C40 in OK; discriminate OK).
       unfold X5.step_report. destruct (GC.check_for_garbage _ _ _ _) as [old gone].
@@ -621,7 +631,7 @@ Section Intact.
       destruct (fold_rdel_keep (X5.i_ts i) (removed x i f) (s_reps (X5.x_cl x)) (s, t)) as [E|(t' & E & In')]; [exact E|]. exfalso.
       inversion E; subst t' s. pose proof (nth_error_In _ _ N) as Hi.
       assert (RS : GC.is_rs t = false) by (unfold GC.is_rs; rewrite Ft; exact BR).
-      pose proof (safe6 x i f t I Hi In' RS) as S. destruct I as (vst & GS & LS & A & SA & SB).
+      pose proof (safe6 x i f t I Hi In' RS) as S. destruct I as (vst & GS & LS & A & SA & SB & TT).
       destruct K1 as [tm Zd]. assert (KB : zmem b (keys x) = true) by (unfold keys; rewrite zmem_keys, Zd; reflexivity).
       rewrite (vis_blob_v _ _ _ A), Ft, (ag_dj _ _ A b KB), (ag_b _ _ A _ _ _ _ Zd) in S. destruct S as [_ S].
       apply (S dv hs); [|exact Ins]. rewrite (vis_tract_v _ _ _ A), Ft, (ag_dj _ _ A b KB). rewrite <- (ag_t _ _ A t) by (rewrite Ft; exact KB).
